@@ -226,6 +226,11 @@ def run(P: Program, R: Report, tier: str) -> None:
 
     nearest_neighbour(P, R, "R03.4")
     c02.history_shape(P, R)
+    # R06.11 (shared): "is this track present at time t" is answered by a scan, not from the ends of a list in joining order -
+    # a wrong "free" makes UserAddNode link the new node to a successor that already has a parent (merge)
+    from .c06 import positional_reads
+
+    positional_reads(P, R)
     # ---- R03.5 a query of the data model never answers from a memo that some writer forgets to drop
     from .memo import no_stale_memo
 
